@@ -336,6 +336,7 @@ func (e *Engine) runPath(h *ssa.Function, prefix []int64, wk *Worker, opts Explo
 		hashers: map[*Object]*hasherState{}, bigLens: map[int]int{}, nonNeg: map[int]bool{}, zeroCache: map[types.Type]Value{},
 		harness: h.Name(), vector: opts.Vector, schedChoice: opts.SchedChoice,
 	}
+	r.maxPreempt = e.bounds["P"]
 	solver.ctx.Reset()
 	solver.BeginPath()
 	defer solver.EndPath()
